@@ -281,7 +281,7 @@ impl<C: Config, Q: Query> Snapshot<C, Q> {
             #[cfg(feature = "verif")]
             qbice_storage::verif::yield_point("pre:repair:check_callee").await;
 
-            let _ = entry
+            let repaired = entry
                 .repair_query_from_query_id(
                     engine,
                     &callee.compact_hash_128(),
@@ -299,6 +299,16 @@ impl<C: Config, Q: Query> Snapshot<C, Q> {
                     ),
                 )
                 .await;
+
+            // The callee is still being computed further up the stack: this
+            // query is a member of a dependency cycle. The callee's stored
+            // fingerprint is the one of its previous run and must not be
+            // used to declare this query clean.
+            if repaired.is_err()
+                && forward_edge_observation.0.contains_key(callee)
+            {
+                return CalleeCheckDecision::Recompute;
+            }
         }
 
         let mut repair_transitive_firewall_callees = false;
@@ -311,12 +321,28 @@ impl<C: Config, Q: Query> Snapshot<C, Q> {
             let callee_node_info =
                 unsafe { engine.get_node_info_unchecked(callee).await };
 
+            // A callee that was registered but never observed is the edge
+            // that closed a dependency cycle (the query unwound before it
+            // could see a value): there is nothing to compare against, the
+            // caller has to be recomputed.
+            let Some(observation) = forward_edge_observation.0.get(callee)
+            else {
+                // If repairing the callee found the cycle again (this query
+                // has just been marked as a member), the query keeps its
+                // cycle default and its recorded dependencies; otherwise the
+                // cycle is gone and the query has to run.
+                return if query_computing.is_in_scc() {
+                    CalleeCheckDecision::Cleaned {
+                        repair_transitive_firewall_callees: false,
+                        add_to_clean_list: edge_is_dirty,
+                    }
+                } else {
+                    CalleeCheckDecision::Recompute
+                };
+            };
+
             let value_fingerprint_diff = callee_node_info.value_fingerprint()
-                != forward_edge_observation
-                    .0
-                    .get(callee)
-                    .unwrap()
-                    .seen_value_fingerprint;
+                != observation.seen_value_fingerprint;
 
             // if any of the callee's value fingerprint differs, we need to
             // recompute
@@ -328,11 +354,7 @@ impl<C: Config, Q: Query> Snapshot<C, Q> {
             if !kind.is_firewall() {
                 let tfc_fingerprint_diff = callee_node_info
                     .transitive_firewall_callees_fingerprint()
-                    != forward_edge_observation
-                        .0
-                        .get(callee)
-                        .unwrap()
-                        .seen_transitive_firewall_callees_fingerprint;
+                    != observation.seen_transitive_firewall_callees_fingerprint;
 
                 if tfc_fingerprint_diff {
                     repair_transitive_firewall_callees = true;
